@@ -56,21 +56,51 @@ const (
 
 var c08CtxNames = []string{"direct", "victim-calls-hook", "closure-in-victim", "iface-in-victim", "inner-stale-outer", "msgrun", "gated-via-realm", "gated-via-run", "relay-double-spend", "realm-victim-hook"}
 
+// c08DrawStmt draws one statement. Besides the fully random family, three
+// families aim at attacks that are coherent enough to get past all but one
+// guard: spending through a banker built from somebody else's realm value,
+// spending foreign coins through one's own banker, and issuing/burning foreign
+// denoms through one's own issuing banker.
 func c08DrawStmt(rt *rapid.T) c08Stmt {
 	s := c08Stmt{}
-	s.RX = rapid.SampledFrom([]int{0, 0, 0, 0, 0, 0, 1, 1, 1, 2, 3, 3, 4, 5}).Draw(rt, "rx")
-	s.BT = rapid.SampledFrom([]int{1, 1, 2, 2, 2, 2, 2, 3, 3, 3, 0, 4, 200}).Draw(rt, "bt")
-	s.Op = rapid.SampledFrom([]int{0, 0, 0, 1, 2}).Draw(rt, "op")
 	s.Via = rapid.IntRange(0, viaNum+1).Draw(rt, "via")
-	s.From = rapid.SampledFrom([]int{aVicUser, aVicUser, aAdmin, aVault, aVault, aVaultDep, aA1Dep, aFeeColl, aRelay, aPayout, aMint, aStorFeeColl, aRelayDep, aRXAddr, aRXAddr, aRXAddr, aRXAddr, aRXAddr, aRXAddr, aCurAddr, aCurAddr, aCurAddr, aA1Sub}).Draw(rt, "from")
 	s.To = rapid.SampledFrom([]int{aAttUser, aAttUser, aA1, aHook, aCurAddr, aVicUser}).Draw(rt, "to")
-	if s.Op == 0 {
-		s.Den = rapid.SampledFrom([]int{0, 0, 0, 0, 1, 1, 2, 5, 8}).Draw(rt, "den")
-	} else {
-		s.Den = rapid.IntRange(0, c08NumDenoms-1).Draw(rt, "den")
-	}
-	s.Amt = rapid.SampledFrom([]int64{1, 1000, 250_000, 0, 0, -1000, 1 << 62}).Draw(rt, "amt")
 	s.Twice = rapid.IntRange(0, 3).Draw(rt, "twice") == 0
+	victims := []int{aVicUser, aVault, aVicUser, aAdmin, aVault, aVaultDep, aA1Dep, aFeeColl, aRelay, aPayout, aMint, aStorFeeColl, aRelayDep}
+	switch rapid.SampledFrom([]string{"random", "via-previous", "foreign-from", "foreign-denom", "via-previous", "random", "foreign-from", "foreign-denom"}).Draw(rt, "family") {
+	case "via-previous":
+		s.RX = rapid.SampledFrom([]int{1, 1, 3, 1, 2, 5}).Draw(rt, "rx")
+		s.BT = rapid.SampledFrom([]int{2, 2, 3, 1}).Draw(rt, "bt")
+		s.Op = 0
+		s.From = rapid.SampledFrom([]int{aRXAddr, aRXAddr, aVault, aRXAddr, aVicUser}).Draw(rt, "from")
+		s.Den = rapid.SampledFrom([]int{0, 0, 0, 1}).Draw(rt, "den")
+		s.Amt = rapid.SampledFrom([]int64{1000, 0, 250_000, 1}).Draw(rt, "amt")
+	case "foreign-from":
+		s.RX = rapid.SampledFrom([]int{0, 0, 0, 4}).Draw(rt, "rx")
+		s.BT = rapid.SampledFrom([]int{2, 2, 3, 1}).Draw(rt, "bt")
+		s.Op = 0
+		s.From = rapid.SampledFrom(victims).Draw(rt, "from")
+		s.Den = rapid.SampledFrom([]int{0, 0, 0, 1}).Draw(rt, "den")
+		s.Amt = rapid.SampledFrom([]int64{1000, 0, 250_000, 1}).Draw(rt, "amt")
+	case "foreign-denom":
+		s.RX = 0
+		s.BT = rapid.SampledFrom([]int{3, 3, 3, 2}).Draw(rt, "bt")
+		s.Op = rapid.SampledFrom([]int{1, 2}).Draw(rt, "op")
+		s.From = rapid.SampledFrom([]int{aVicUser, aVault, aAttUser, aCurAddr}).Draw(rt, "from")
+		s.Den = rapid.SampledFrom([]int{1, 6, 9, 1, 0, 5, 2}).Draw(rt, "den")
+		s.Amt = rapid.SampledFrom([]int64{7, 1000, 0}).Draw(rt, "amt")
+	default:
+		s.RX = rapid.SampledFrom([]int{0, 0, 0, 0, 0, 0, 1, 1, 1, 2, 3, 3, 4, 5}).Draw(rt, "rx")
+		s.BT = rapid.SampledFrom([]int{1, 1, 2, 2, 2, 2, 2, 3, 3, 3, 0, 4, 200}).Draw(rt, "bt")
+		s.Op = rapid.SampledFrom([]int{0, 0, 0, 1, 2}).Draw(rt, "op")
+		s.From = rapid.SampledFrom(append([]int{aRXAddr, aRXAddr, aRXAddr, aRXAddr, aRXAddr, aRXAddr, aCurAddr, aCurAddr, aCurAddr, aA1Sub}, victims...)).Draw(rt, "from")
+		if s.Op == 0 {
+			s.Den = rapid.SampledFrom([]int{0, 0, 0, 0, 1, 1, 2, 5, 8}).Draw(rt, "den")
+		} else {
+			s.Den = rapid.IntRange(0, c08NumDenoms-1).Draw(rt, "den")
+		}
+		s.Amt = rapid.SampledFrom([]int64{1, 1000, 250_000, 0, 0, -1000, 1 << 62}).Draw(rt, "amt")
+	}
 	return s
 }
 
@@ -99,8 +129,8 @@ func c08DrawTx(rt *rapid.T) c08Tx {
 		}
 		return c08Tx{Kind: "shrink", Signer: rapid.IntRange(0, 2).Draw(rt, "signer"), N: rapid.IntRange(1, 30).Draw(rt, "n")}
 	default:
-		tx := c08Tx{Kind: "attack", Ctx: rapid.IntRange(0, ctxNum-1).Draw(rt, "ctx")}
-		tx.Signer = rapid.SampledFrom([]int{0, 0, 0, 1}).Draw(rt, "signer")
+		tx := c08Tx{Kind: "attack", Ctx: rapid.SampledFrom([]int{ctxMiddle, ctxDirect, ctxMiddleDeep, ctxClosure, ctxIface, ctxInner, ctxRun, ctxGated, ctxGatedRun, ctxRelayUser, ctxMiddle, ctxDirect}).Draw(rt, "ctx")}
+		tx.Signer = rapid.SampledFrom([]int{0, 1, 0, 0, 1}).Draw(rt, "signer")
 		tx.Send = rapid.SampledFrom([]int64{0, 0, 1000, 300_000}).Draw(rt, "send")
 		tx.Stmt = c08DrawStmt(rt)
 		tx.Addr = rapid.SampledFrom([]int{aAttUser, aA1, aHook}).Draw(rt, "to")
